@@ -84,22 +84,35 @@ def floorLog10 (P Q : Nat) : Int :=
 /-- does the decimal D · 10^s read back as the double `v`? -/
 def readsBack (v : FVal) (neg : Bool) (D : Nat) (s : Int) : Bool := roundDec neg D s == v
 
-/-- the digit strings of `k`, `k+1`, … significant digits (at most `fuel` of them) nearest to P/Q, until one reads
-    back as `v`: returns the digits (no trailing zeros) and the position of the decimal point (`decpt`) -/
+/-- P/Q · 10^(-s) as a fraction -/
+def scaledNum (P : Nat) (s : Int) : Nat := if 0 ≤ s then P else P * 10 ^ (-s).toNat
+def scaledDen (Q : Nat) (s : Int) : Nat := if 0 ≤ s then Q * 10 ^ s.toNat else Q
+
+/-- the integer nearest to P/Q · 10^(-s) (ties to even) … -/
+def cand1 (P Q : Nat) (s : Int) : Nat :=
+  let lo := scaledNum P s / scaledDen Q s
+  let r := scaledNum P s % scaledDen Q s
+  if 2 * r < scaledDen Q s || (2 * r == scaledDen Q s && lo % 2 == 0) then lo else lo + 1
+
+/-- … and its neighbour on the other side -/
+def cand2 (P Q : Nat) (s : Int) : Nat :=
+  let lo := scaledNum P s / scaledDen Q s
+  if cand1 P Q s == lo then lo + 1 else lo
+
+/-- the two `k`-digit decimals D · 10^s around P/Q, the nearer first: digits (no trailing zeros) and `decpt` of the
+    first that reads back as `v` -/
+def tryDigits (v : FVal) (neg : Bool) (P Q : Nat) (s : Int) : Option (Str × Int) :=
+  if readsBack v neg (cand1 P Q s) s then some (rstrip0 (digits (cand1 P Q s)), s + (ndigits (cand1 P Q s) : Int))
+  else if readsBack v neg (cand2 P Q s) s then some (rstrip0 (digits (cand2 P Q s)), s + (ndigits (cand2 P Q s) : Int))
+  else none
+
+/-- `k`, `k+1`, … significant digits (at most `fuel` of them), `t` = floor(log10(P/Q)) -/
 def shortestFrom (v : FVal) (neg : Bool) (P Q : Nat) (t : Int) : Nat → Nat → Option (Str × Int)
   | 0, _ => none
   | fuel + 1, k =>
-    let s : Int := t - ((k : Int) - 1)
-    let num := if 0 ≤ s then P else P * 10 ^ (-s).toNat
-    let den := if 0 ≤ s then Q * 10 ^ s.toNat else Q
-    let lo := num / den
-    let r := num % den
-    -- the nearer of lo, lo + 1 first
-    let first := if 2 * r < den || (2 * r == den && lo % 2 == 0) then lo else lo + 1
-    let second := if first == lo then lo + 1 else lo
-    if readsBack v neg first s then some (rstrip0 (digits first), s + (ndigits first : Int))
-    else if readsBack v neg second s then some (rstrip0 (digits second), s + (ndigits second : Int))
-    else shortestFrom v neg P Q t fuel (k + 1)
+    match tryDigits v neg P Q (t - ((k : Int) - 1)) with
+    | some r => some r
+    | none => shortestFrom v neg P Q t fuel (k + 1)
 
 /-- `float_repr_style = 'short'`, mode 0 of `_Py_dg_dtoa`: shortest, at most 17 digits -/
 def shortest (neg : Bool) (m : Nat) (e : Int) : Option (Str × Int) :=
@@ -124,8 +137,9 @@ def floatToXsd : FVal → Option Str
   | .nan => some ['N', 'a', 'N']
   | .inf false => some ['I', 'N', 'F']
   | .inf true => some ['-', 'I', 'N', 'F']
-  | .fin neg 0 _ => some (fmtRepr neg ['0'] 1)
-  | .fin neg m e => (shortest neg m e).map (fun p => fmtRepr neg p.1 p.2)
+  | .fin neg m e =>
+    if m = 0 then some (fmtRepr neg ['0'] 1)
+    else (shortest neg m e).map (fun p => fmtRepr neg p.1 p.2)
 
 /-- Python `==` on floats -/
 def FVal.pyEq : FVal → FVal → Bool
